@@ -255,7 +255,8 @@ class Executor:
             return []
         out = []
         scx = Cx(self.cur_fi, spec=True, contract=c)
-        for o_, sp_ in (c.loops or {}).items():
+        from .stmts import contract_loops
+        for o_, sp_ in contract_loops(self.cur_fi, c).items():
             if f'$i{o_}' in st.vars and sp_.get('idx'):
                 st = st.setvar(sp_['idx'], st.vars[f'$i{o_}'])
         for pat, exprs in c.split:
